@@ -102,7 +102,10 @@ CLAIMS = {
         text="Lean theorems (Props/C06.lean, over the relational semantics Runs, i.e. for every environment incl. mounts racing with "
              "every call): a descriptor returned by a procfs lookup (and by open_base) was verified *on the descriptor itself* — "
              "statx(fd,\"\") answered with the handle's mount id (unknown iff the handle's is unknown) and the very last call of the "
-             "run is fstatfs(fd)=PROC_SUPER_MAGIC; fetch_mnt_id/verify_same_mnt inversion lemmas. Tie and oracle: in a private mount "
+             "run is fstatfs(fd)=PROC_SUPER_MAGIC; fetch_mnt_id/verify_same_mnt inversion lemmas; on PWorld (Kernel/ProcWorld.lean: a "
+             "procfs tree whose objects carry mount ids, an over-mounted entry leading to the root of the other mount) the confined "
+             "lookup and the emulated resolver only ever return objects of the mount they started on, whatever is mounted wherever "
+             "(C06_spec_same_mount, C06_emulated_same_mount). Tie and oracle: in a private mount "
              "namespace, subsets of 12 over-mounts (tmpfs, foreign file, other procfs object on files, directories, symlinks, "
              "magic-links) x 7 handle kinds x both resolvers x {open, open_follow, readlink}: transcripts replayed through the model; "
              "a visible over-mount must give EXDEV, the over-mounting object's identity must never be returned, private handles "
@@ -123,6 +126,12 @@ CLAIMS = {
              "error leaves; open forces O_NOFOLLOW; the emulated walk stops at '..' with EXDEV without looking it up; absolute "
              "sub-paths give EXDEV before any call; the kernel resolver's mask is BENEATH|NO_MAGICLINKS|NO_XDEV; every call of the "
              "emulated walk satisfies Disc false (no followed link, single components, bodies read from the opened descriptor). "
+             "Refinement against PWorld (procfs tree with directories, ordinary symlinks, magic-links, files and mounts; "
+             "presolve/resolveBeneath = openat2 RESOLVE_BENEATH|NO_XDEV|NO_MAGICLINKS): for every such tree, every non-empty sub-path "
+             "without '..' and every flag set of the resolver's final-component table the emulated resolver returns exactly the "
+             "confined lookup's object or errno (C07_emulated_is_spec: magic-link as component or followed = ELOOP, mount crossing = "
+             "EXDEV, trailing link followed iff O_NOFOLLOW absent), hence both resolvers agree unless the kernel's link budget "
+             "ran out (C07_resolvers_agree). "
              "Tie and oracle: sub-paths built from the live /proc listings x 10 flag sets x 3 APIs x {private, host} handle x both "
              "resolvers, replayed through the model; resolver-vs-resolver outcome comparison.",
         note="Magic-links whose body is not absolute, used as a component (fd/N/ of a pipe, ns/mnt/): ELOOP vs ENOENT (finding F13, "
